@@ -5,6 +5,7 @@
   exhausted / a task met again while it is in progress), KeyError, TypeError, ZeroDivisionError, ValueError.
 -/
 import PjVerif.Lemmas.SchedC14
+import PjVerif.Lemmas.CalcSrc
 namespace Pj
 
 /-- structural invariants of the WBS handed to `calc` (what C01/C05/C11 guarantee for every reachable graph), in the
@@ -79,5 +80,66 @@ theorem C14_loopsFrom_sound (next : Uid → List Uid) (fuel : Nat) (starts : Lis
     (h : starts.foldlM (fun v t => loopsFrom next fuel [] v t) [] = .ok val) :
     ∀ t ∈ starts, ¬ TC (fun a b => b ∈ next a) t t :=
   loopsFrom_sound next fuel starts val h
+
+/-! ### the tie of the pre-checks and of `calc` to the current source, by translation (tools/extract_calc.py, Lemmas/CalcSrc.lean) -/
+
+/-- the translated `_check_loops` (both passes of the depth-first search, with its in-progress list, its validated set and the
+    function-valued `waits_for` parameter) is the model's `checkLoops` - unless the model's fuel runs out -/
+theorem C14_source_check_loops (env : Env) (ms : Uid → Bool) (mem : List Uid) (w : Nat)
+    {E : TaskInfo → Bool → Fields → PyLite.Env} (hE : CalcSrc.CalcEnc E) (f : Uid → Fields) (st : PyLite.PState)
+    (hh : st.heap = PassSrcBwd.heapOf E env ms f) (fuel' : Nat) (hf : env.n + 2 ≤ fuel')
+    (hne : checkLoops env mem ≠ .error (.crash .recursion)) :
+    CalcSrc.unit (CalcSrc.interpCheckLoops env mem w fuel' [.ref w] st) = checkLoops env mem :=
+  CalcSrc.interpCheckLoops_eq env ms mem w hE f st hh fuel' hf hne
+
+/-- the translated `_validate_graph_isolation` raises RuntimeError exactly when the model's `isolationOk` is false -/
+theorem C14_source_isolation (env : Env) (ms : Uid → Bool) (mem : List Uid) (w : Nat)
+    {E : TaskInfo → Bool → Fields → PyLite.Env} (hE : CalcSrc.CalcEnc E) (f : Uid → Fields) (st : PyLite.PState)
+    (hh : st.heap = PassSrcBwd.heapOf E env ms f) :
+    CalcSrc.interpIsolation env mem w [.ref w] st =
+      if isolationOk env f mem = true then
+        .ok (.atom .none, { st with boxes := st.boxes ++ [mem.map CalcSrc.idA] })
+      else .error .runtime :=
+  CalcSrc.interpIsolation_eq env ms mem w hE f st hh
+
+/-- the translated `_waits_for` is the model's `waitsFor` (own and inherited predecessors, expanded to leaves) -/
+theorem C14_source_waits_for (env : Env) (ms : Uid → Bool) (mem : List Uid) (w : Nat)
+    {E : TaskInfo → Bool → Fields → PyLite.Env} (hE : CalcSrc.CalcEnc E) (f : Uid → Fields) (st : PyLite.PState)
+    (hh : st.heap = PassSrcBwd.heapOf E env ms f) (t : Uid) :
+    CalcSrc.interpWaitsFor env mem w [.ref t] st = .ok (.list ((waitsFor env t).map PyLite.Atom.ref), st) :=
+  CalcSrc.interpWaitsFor_eq env ms mem w hE f st hh t
+
+/-- the translated `ForwardScheduler.calc` (validation, loop check, future-end check, clone, prepare, the pass over the roots; every
+    call runs the translated source of its callee down to calendar.py) is the model's `forwardCalc`, errors included - unless the model
+    ends in RecursionError (excluded for inputs that pass the pre-checks, C14).  `mem` = `WBS.tasks`, `w` the WBS object, `B0` the
+    store of list/set containers, `hms` the effective-milestone encoding. -/
+theorem C14_source_calc_forward (env : Env) (ms : Uid → Bool) (mem : List Uid) (w : Nat)
+    (hmem : members env = some mem)
+    (hms : ∀ u, (env.info u).milestone = (ms u && (env.info u).children.isEmpty))
+    (fuel wfuel pfuel : Nat) (hf : env.n + 2 ≤ fuel) (hw : Extracted.fwdShiftMaxSteps < wfuel) (hp : env.n + 1 ≤ pfuel)
+    (f0 : Uid → Fields) (res0 : List (Option Nat × Cal)) (rows0 : List Row) (done0 : List Uid) (B0 : List (List PyLite.Atom))
+    (hne : forwardCalc env f0 res0 ≠ .error (.crash .recursion)) :
+    match forwardCalc env f0 res0 with
+    | .ok out => ∃ σ B, CalcSrc.interpFwdCalc env mem w fuel wfuel (PassSrc.calRef res0) pfuel
+          (CalcSrc.wb (PassSrc.encS env ms { f := f0, rows := rows0, done := done0, res := res0, reads := 0 }) B0) =
+          .ok (.atom (.ref w), CalcSrc.wb (PassSrc.encS env ms σ) B) ∧ out = { f := σ.f, rows := σ.rows, res := σ.res }
+    | .error e => CalcSrc.interpFwdCalc env mem w fuel wfuel (PassSrc.calRef res0) pfuel
+          (CalcSrc.wb (PassSrc.encS env ms { f := f0, rows := rows0, done := done0, res := res0, reads := 0 }) B0) = .error e :=
+  CalcSrc.interpFwdCalc_eq env ms mem w hmem hms fuel wfuel pfuel hf hw hp f0 res0 rows0 done0 B0 hne
+
+/-- the same for `BackwardScheduler.calc` and `backwardCalc` -/
+theorem C14_source_calc_backward (env : Env) (ms : Uid → Bool) (mem : List Uid) (w : Nat)
+    (hmem : members env = some mem)
+    (hms : ∀ u, (env.info u).milestone = (ms u && (env.info u).children.isEmpty))
+    (fuel wfuel pfuel : Nat) (hf : env.n + 2 ≤ fuel) (hw : Extracted.bwdShiftMaxSteps < wfuel) (hp : env.n + 1 ≤ pfuel)
+    (f0 : Uid → Fields) (res0 : List (Option Nat × Cal)) (rows0 : List Row) (done0 : List Uid) (B0 : List (List PyLite.Atom))
+    (hne : backwardCalc env f0 res0 ≠ .error (.crash .recursion)) :
+    match backwardCalc env f0 res0 with
+    | .ok out => ∃ σ B, CalcSrc.interpBwdCalc env mem w fuel wfuel (PassSrc.calRef res0) pfuel
+          (CalcSrc.wb (PassSrcBwd.encSB env ms { f := f0, rows := rows0, done := done0, res := res0, reads := 0 }) B0) =
+          .ok (.atom (.ref w), CalcSrc.wb (PassSrcBwd.encSB env ms σ) B) ∧ out = { f := σ.f, rows := σ.rows, res := σ.res }
+    | .error e => CalcSrc.interpBwdCalc env mem w fuel wfuel (PassSrc.calRef res0) pfuel
+          (CalcSrc.wb (PassSrcBwd.encSB env ms { f := f0, rows := rows0, done := done0, res := res0, reads := 0 }) B0) = .error e :=
+  CalcSrc.interpBwdCalc_eq env ms mem w hmem hms fuel wfuel pfuel hf hw hp f0 res0 rows0 done0 B0 hne
 
 end Pj
